@@ -7,6 +7,7 @@ import (
 	"os"
 	"strings"
 
+	"amverif/codec"
 	"amverif/core"
 )
 
@@ -18,10 +19,54 @@ func main() {
 	switch os.Args[1] {
 	case "core":
 		os.Exit(cmdCore(os.Args[2:]))
+	case "codec":
+		os.Exit(cmdCodec(os.Args[2:]))
 	default:
 		fmt.Println("unknown command", os.Args[1])
 		os.Exit(2)
 	}
+}
+
+func cmdCodec(args []string) int {
+	fs := flag.NewFlagSet("codec", flag.ExitOnError)
+	fs.String("prop", "C10", "")
+	tier := fs.String("tier", "quick", "quick|thorough")
+	seed := fs.Int64("seed", 1, "PRNG seed")
+	n := fs.Int("cases", 0, "generated cases")
+	driver := fs.String("driver", "/verif/lean/.lake/build/bin/amdriver", "model driver")
+	out := fs.String("out", "/verif/out", "")
+	result := fs.String("result", "", "")
+	fs.String("corpus", "", "")
+	fs.String("replay", "", "")
+	search := fs.Bool("search", false, "")
+	fs.Parse(args)
+	if *n == 0 {
+		*n = 600
+		if *tier == "thorough" {
+			*n = 8000
+		}
+	}
+	if *search {
+		*n *= 5
+	}
+	res := codec.RunPipeline(*seed, *tier, *driver, *out, *n, *search)
+	b, _ := json.MarshalIndent(res, "", " ")
+	if *result != "" {
+		os.WriteFile(*result, b, 0o644)
+	}
+	fmt.Printf("cases=%d evaluations=%d disagreements=%d failures=%d wall=%.1fs\n", res.Cases, res.Evaluations, len(res.Disagreements), len(res.Failures), res.WallS)
+	for _, d := range res.Disagreements {
+		if d.File != "" {
+			fmt.Printf("DISAGREE %s line %d: %s\n  impl : %s\n  model: %s\n", d.File, d.Line, d.Op, d.Impl, d.Model)
+		}
+	}
+	for _, f := range res.Failures {
+		fmt.Printf("MONITOR-FAIL finding=%q %s (%s)\n", f.Finding, f.Msg, f.File)
+	}
+	if len(res.Disagreements) > 0 || len(res.Failures) > 0 {
+		return 1
+	}
+	return 0
 }
 
 func optsFor(prop, tier string) (core.GenOpts, int) {
